@@ -426,7 +426,7 @@ def run(ctx):
     # --- correspondence: model vs real passes -----------------------------------
     coq_cases = [(r["term"], r["expected"], r) for r in ready]
     header = HEADER + scope_x.string_definitions([t for a, b, _ in coq_cases for t in (a, b)])
-    runner = fw.CoqCases(ctx, "scope", header, "run_case", "case_eqb", "input", "(outcome1 * option outcome2)", shard=10)
+    runner = fw.CoqCases(ctx, "scope", header, "run_case", "case_eqb", "input", "(outcome1 * option outcome2)", shard=24)
     bad = runner.run(coq_cases)
     ctx.extra["coq_cases_s"] = round(time.time() - t0 - ctx.extra["prepare_s"], 1)
     for r in ready:
